@@ -153,15 +153,15 @@ func (r *Runtime) builtin_newWeakMap(args []Value, newTarget *Object) *Object {
 			if adder == r.global.weakMapAdder {
 				iter.iterate(func(item Value) {
 					itemObj := r.toObject(item)
-					k := itemObj.self.getIdx(i0, nil)
+					k := nilSafe(itemObj.self.getIdx(i0, nil))
 					v := nilSafe(itemObj.self.getIdx(i1, nil))
 					wmo.m.set(r.toObject(k), v)
 				})
 			} else {
 				iter.iterate(func(item Value) {
 					itemObj := r.toObject(item)
-					k := itemObj.self.getIdx(i0, nil)
-					v := itemObj.self.getIdx(i1, nil)
+					k := nilSafe(itemObj.self.getIdx(i0, nil))
+					v := nilSafe(itemObj.self.getIdx(i1, nil))
 					adderFn(FunctionCall{This: o, Arguments: []Value{k, v}})
 				})
 			}
